@@ -868,7 +868,7 @@ func c12GenMessage(t *rapid.T, w c12World, server string) ([]byte, string, []str
 		ids = append(ids, id)
 	}
 	sigs := jobj(server, mine)
-	switch rapid.IntRange(0, 7).Draw(t, "foreign") {
+	switch rapid.SampledFrom([]int{2, 2, 2, 2, 2, 2, 2, 0, 2, 2, 2, 1, 2, 2, 2, 2}).Draw(t, "foreign") {
 	case 0:
 		sigs.O = append(sigs.O, jkv{"x.example", jobj("ed25519:a", sigFor(9))})
 	case 1:
@@ -955,7 +955,7 @@ func c12Gen(t *rapid.T) c12Case {
 	}
 	for ri := 0; ri < nr; ri++ {
 		r := c12Round{Fetchers: scripts[ri], Requests: c12GenRequests(t, w, held)}
-		if rapid.IntRange(0, 39).Draw(t, "dbFault") == 0 {
+		if rapid.IntRange(0, 99).Draw(t, "dbFault") == 57 { // (rapid favours the ends of a range: a middle value keeps database faults rare)
 			if rapid.Bool().Draw(t, "dbFaultKind") {
 				r.DBFetchErr = true
 			} else {
@@ -969,5 +969,5 @@ func c12Gen(t *rapid.T) c12Case {
 
 func init() {
 	rule := "non-trivial = some request carries a supported (ed25519) signature of the named server AND (a fetcher was asked for one of its keys OR a key supplied for one of its key IDs verifies the message, so that the validity rule or the flow decides) — i.e. the outcome is not decided by 'no supported signature'. distinct = distinct Case JSON."
-	vfRapid("C12/verifyjsons", rule, 3000, 100000, 16, c12Gen, c12Check)
+	vfRapid("C12/verifyjsons", rule, 6000, 400000, 16, c12Gen, c12Check)
 }
